@@ -223,6 +223,10 @@ pub struct Sem<'a> {
     uninit: std::collections::BTreeSet<usize>,
     wrote_unset: bool,
     mc_depth: usize,
+    /// number of values written so far whose type the indexer cannot compute
+    untyped_uses: usize,
+    /// declarations whose type is unknown to the indexer (initialised through an untyped value)
+    tainted: std::collections::BTreeSet<usize>,
     /// constructs not to generate (excluded by construction because of a listed known finding)
     pub disabled: std::collections::BTreeSet<String>,
     pub excluded: usize,
@@ -265,6 +269,8 @@ impl<'a> Sem<'a> {
             uninit: Default::default(),
             wrote_unset: false,
             mc_depth: 0,
+            untyped_uses: 0,
+            tainted: Default::default(),
             disabled: Default::default(),
             excluded: 0,
         }
@@ -294,6 +300,9 @@ impl<'a> Sem<'a> {
         if let Role::Use(d) = &role {
             if self.p.decls[*d].file != self.cur {
                 self.p.feat.cross_file_use = true;
+            }
+            if self.tainted.contains(d) {
+                self.untyped_uses += 1;
             }
         }
         self.p.occs.push(Occ { file: self.cur, range: r, role });
@@ -633,6 +642,7 @@ impl<'a> Sem<'a> {
                     }
                     self.span("isa", st);
                 }
+                7 | 8 if self.int_bit_select() => {}
                 7 | 8 => self.w("false"),
                 0 => self.w("true"),
                 1 => self.w("false"),
@@ -827,6 +837,26 @@ impl<'a> Sem<'a> {
         self.p.bang_sites.push((self.cur, op.to_string(), close, args.len(), op_start));
     }
 
+    /// `n{k}` for a visible int name: valid TableGen (a bit of an int) whose type the indexer does
+    /// not compute; returns false (writing nothing) when no int name is visible
+    fn int_bit_select(&mut self) -> bool {
+        if !self.on("int-bit-select") {
+            return false;
+        }
+        let vis = self.visible_of_type(&Ty::Int);
+        if vis.is_empty() {
+            return false;
+        }
+        let st = self.here();
+        let (n, d) = vis[self.rng.below(vis.len())].clone();
+        self.ident(&n, Role::Use(d));
+        let k = self.rng.below(4);
+        self.w(&format!("{{{k}}}"));
+        self.span("int-bit-select", st);
+        self.untyped_uses += 1;
+        true
+    }
+
     /// a list<int> value that can take a `[0]` suffix: a visible variable or a literal list
     fn value_atom_list_int(&mut self, depth: usize) {
         let vis = self.visible_of_type(&Ty::List(Box::new(Ty::Int)));
@@ -844,9 +874,11 @@ impl<'a> Sem<'a> {
     fn bang_foldl(&mut self, depth: usize) {
         self.p.feat.bang_ops += 1;
         self.w("!foldl(");
+        let before = self.untyped_uses;
         self.value(&Ty::Int, depth + 1);
         self.w(", ");
         self.value(&Ty::List(Box::new(Ty::Int)), depth + 1);
+        let operands_untyped = self.untyped_uses != before;
         self.w(", ");
         let acc = self.fresh("acc");
         let x = self.fresh("x");
@@ -862,6 +894,12 @@ impl<'a> Sem<'a> {
         let da = mk(self, &acc);
         self.w(", ");
         let dx = mk(self, &x);
+        if operands_untyped {
+            for d in [da, dx] {
+                self.p.decls[d].ty = None;
+                self.tainted.insert(d);
+            }
+        }
         self.w(", ");
         self.scopes.push(vec![Var { name: acc.clone(), ty: Ty::Int, decl: da }, Var { name: x.clone(), ty: Ty::Int, decl: dx }]);
         self.p.feat.nested_scopes = self.p.feat.nested_scopes.max(self.scopes.len());
@@ -894,20 +932,34 @@ impl<'a> Sem<'a> {
         self.w(&name);
         let id_range = (id_pos, self.here());
         self.w(", ");
+        let before = self.untyped_uses;
         self.value(&Ty::List(Box::new(el.clone())), depth + 1);
+        let var_ty = if self.untyped_uses != before { None } else { Some(el.clone()) };
         self.w(", ");
         let d = self.p.decls.len();
-        self.p.decls.push(Decl { id: d, kind: DeclKind::BangVar, name: name.clone(), file: self.cur, range: id_range, ty: Some(el.clone()), doc: None, owner: None, overridden: false, pasted: false });
+        self.p.decls.push(Decl { id: d, kind: DeclKind::BangVar, name: name.clone(), file: self.cur, range: id_range, ty: var_ty, doc: None, owner: None, overridden: false, pasted: false });
         self.p.occs.push(Occ { file: self.cur, range: id_range, role: Role::Decl(d) });
+        if self.p.decls[d].ty.is_none() {
+            self.tainted.insert(d);
+        }
         self.p.feat.decl_kinds.insert("bang-var");
         self.scopes.push(vec![Var { name: name.clone(), ty: el.clone(), decl: d }]);
         self.p.feat.nested_scopes = self.p.feat.nested_scopes.max(self.scopes.len());
-        // make sure the variable is used
-        self.w("!add(");
-        self.ident(&name, Role::Use(d));
-        self.w(", ");
-        self.value(&Ty::Int, depth + 2);
-        self.w(")");
+        // mostly a body that uses the variable; sometimes one whose type the indexer cannot compute
+        // (the bound variable itself cannot be bit-selected in TableGen: mask it, and any outer
+        // variable of the same name that it shadows)
+        let hidden = self.scopes.pop().unwrap();
+        self.scopes.push(vec![Var { name: name.clone(), ty: Ty::Dag, decl: d }]);
+        let untyped = self.rng.chance(1, 4) && self.int_bit_select();
+        self.scopes.pop();
+        self.scopes.push(hidden);
+        if !untyped {
+            self.w("!add(");
+            self.ident(&name, Role::Use(d));
+            self.w(", ");
+            self.value(&Ty::Int, depth + 2);
+            self.w(")");
+        }
         self.scopes.pop();
         self.dead.push((name, d));
         self.w(")");
@@ -922,17 +974,29 @@ impl<'a> Sem<'a> {
         self.w(&name);
         let id_range = (id_pos, self.here());
         self.w(", ");
+        let before = self.untyped_uses;
         self.value(&Ty::List(Box::new(Ty::Int)), depth + 1);
+        let var_ty = if self.untyped_uses != before { None } else { Some(Ty::Int) };
         self.w(", ");
         let d = self.p.decls.len();
-        self.p.decls.push(Decl { id: d, kind: DeclKind::BangVar, name: name.clone(), file: self.cur, range: id_range, ty: Some(Ty::Int), doc: None, owner: None, overridden: false, pasted: false });
+        self.p.decls.push(Decl { id: d, kind: DeclKind::BangVar, name: name.clone(), file: self.cur, range: id_range, ty: var_ty, doc: None, owner: None, overridden: false, pasted: false });
         self.p.occs.push(Occ { file: self.cur, range: id_range, role: Role::Decl(d) });
+        if self.p.decls[d].ty.is_none() {
+            self.tainted.insert(d);
+        }
         self.scopes.push(vec![Var { name: name.clone(), ty: Ty::Int, decl: d }]);
-        self.w("!lt(");
-        self.ident(&name, Role::Use(d));
-        self.w(", ");
-        self.value(&Ty::Int, depth + 2);
-        self.w(")");
+        let hidden = self.scopes.pop().unwrap();
+        self.scopes.push(vec![Var { name: name.clone(), ty: Ty::Dag, decl: d }]);
+        let untyped = self.rng.chance(1, 4) && self.int_bit_select();
+        self.scopes.pop();
+        self.scopes.push(hidden);
+        if !untyped {
+            self.w("!lt(");
+            self.ident(&name, Role::Use(d));
+            self.w(", ");
+            self.value(&Ty::Int, depth + 2);
+            self.w(")");
+        }
         self.scopes.pop();
         self.dead.push((name, d));
         self.w(")");
@@ -1186,7 +1250,12 @@ impl<'a> Sem<'a> {
                     // LLVM 14 does not let a body-level defvar initialiser mention fields: hide them
                     let saved = std::mem::take(&mut self.rec_fields);
                     let saved_t = std::mem::take(&mut self.rec_targs);
+                    let before = self.untyped_uses;
                     self.value(&ty, 1);
+                    if self.untyped_uses != before {
+                        self.p.decls[d].ty = None;
+                        self.tainted.insert(d);
+                    }
                     self.rec_fields = saved;
                     self.rec_targs = saved_t;
                     self.w(";");
@@ -1305,7 +1374,13 @@ impl<'a> Sem<'a> {
         };
         let d = self.declare(DeclKind::Defvar, &name, Some(ty.clone()), None, None);
         self.w(" = ");
+        let before = self.untyped_uses;
         self.value(&ty, 0);
+        if self.untyped_uses != before {
+            // the initialiser contains a value the indexer cannot type: the hover type is not asserted
+            self.p.decls[d].ty = None;
+            self.tainted.insert(d);
+        }
         self.w(";");
         self.scopes.last_mut().unwrap().push(Var { name, ty, decl: d });
     }
@@ -1372,7 +1447,12 @@ impl<'a> Sem<'a> {
             _ => {
                 // a one-element list keeps the pasted def names distinct whatever the value is
                 self.w("[");
+                let before = self.untyped_uses;
                 self.value(&Ty::Int, 1);
+                if self.untyped_uses != before {
+                    self.p.decls[d].ty = None;
+                    self.tainted.insert(d);
+                }
                 self.w("]");
             }
         }
